@@ -1028,6 +1028,48 @@ def run(chk: Check) -> None:
             back, ok = repr(ex), False
         if not ok:
             rt_fail("date-roundtrip", f"parse_date(http_date({d0!r})) = {back!r}", {"datetime": repr(d0)})
+    # the three accepted shapes, every zone word, two-digit years around the pivot, impossible dates
+    WD3 = ["Mon", "Tue", "Wed", "Thu", "Fri", "Sat", "Sun"]
+    WDL = ["Monday", "Tuesday", "Wednesday", "Thursday", "Friday", "Saturday", "Sunday"]
+    MON = ["Jan", "Feb", "Mar", "Apr", "May", "Jun", "Jul", "Aug", "Sep", "Oct", "Nov", "Dec"]
+    ZN = ["GMT", "UT", "UTC", "Z", "AST", "ADT", "EST", "EDT", "CST", "CDT", "MST", "MDT", "PST", "PDT", "gmt", "est", "+0000", "-0000", "+0100", "-0830", "+2359", "-2359",
+          "+2400", "+0099", "-9999", "XYZ", "+01", "+01000"]
+    shapes = ["Sun, 06 Nov 1994 08:49:37 GMT", "Sunday, 06-Nov-94 08:49:37 GMT", "Sun Nov  6 08:49:37 1994", "Sun Nov 6 08:49:37 1994", "Sun, 6 Nov 1994 08:49:37 GMT",
+              "06 Nov 1994 08:49:37 GMT", "Sun, 06 Nov 1994 08:49:37", "Sun, 06 Nov 0050 08:49:37 GMT", "Sun, 29 Feb 1900 00:00:00 GMT", "Sun, 29 Feb 2000 00:00:00 GMT",
+              "Sun, 31 Apr 2026 00:00:00 GMT", "Sun, 00 Jan 2026 00:00:00 GMT", "Sun, 01 Jan 2026 24:00:00 GMT", "Sun, 01 Jan 2026 23:60:00 GMT", "Sun, 01 Jan 2026 23:59:60 GMT",
+              "Sun, 01 Jan 0000 00:00:00 GMT", "Sun, 01 Jan 9999 23:59:59 GMT", "Xyz Nov  6 08:49:37 1994", "Sunday, 06-Nov-1994 08:49:37 GMT", "Sun, 06 nov 1994 08:49:37 GMT",
+              "Sun, 06 NOV 1994 08:49:37 gmt", "Sun, 06 Nov 94 08:49:37 GMT", "Sunday, 06-Nov-94 08:49:37", "Sun, 006 Nov 1994 08:49:37 GMT", "Sun, 06 Nove 1994 08:49:37 GMT"]
+    for yy in ["00", "01", "49", "50", "51", "67", "68", "69", "70", "99"]:
+        shapes += [f"Sunday, 06-Nov-{yy} 08:49:37 GMT", f"Sun, 06 Nov {yy} 08:49:37 GMT", f"Sun, 06 Nov 00{yy} 08:49:37 GMT", f"Sun Nov  6 08:49:37 00{yy}"]
+    for z in ZN:
+        shapes += [f"Sun, 06 Nov 1994 08:49:37 {z}", f"Sunday, 06-Nov-94 08:49:37 {z}"]
+    for _ in range(n):
+        d_, mo_, y4 = rng.choice([1, 9, 10, 28, 29, 30, 31]), rng.randrange(12), rng.choice([1, 99, 100, 1000, 1900, 1999, 2000, 2024, 2026, 2100, 9999, rng.randint(1, 9999)])
+        tm_ = f"{rng.choice([0, 9, 12, 23])if rng.random() < 0.9 else 24:02d}:{rng.choice([0, 30, 59]):02d}:{rng.choice([0, 59]) if rng.random() < 0.9 else 60:02d}"
+        z = rng.choice(ZN)
+        k = rng.randrange(3)
+        if k == 0:
+            shapes.append(f"{rng.choice(WD3)}, {d_:02d} {MON[mo_]} {y4:04d} {tm_} {z}")
+        elif k == 1:
+            shapes.append(f"{rng.choice(WDL)}, {d_:02d}-{MON[mo_]}-{y4 % 100:02d} {tm_} {z}")
+        else:
+            shapes.append(f"{rng.choice(WD3)} {MON[mo_]} {d_:2d} {tm_} {y4:04d}")
+    for t_ in shapes:
+        def show_date(r):
+            if r is None:
+                return "~"
+            return f"{r.day} {r.month} {r.year} {r.hour} {r.minute} {r.second} {int(r.utcoffset().total_seconds()) // 60}"
+        C.add(f"pdate3 {cps(t_)}", lambda: show_date(H.parse_date(t_)))
+        # normal form on the implementation: http_date(parse_date(t)) is read back as the same instant
+        try:
+            r1 = T(lambda: H.parse_date(t_))
+            if r1 is not None and r1.year >= 100:
+                r2 = T(lambda: H.parse_date(H.http_date(r1)))
+                if r2 is None or r2 != r1:
+                    rt_fail("date-normal-form", f"parse_date(http_date(parse_date({t_!r}))) = {r2!r} != {r1!r}", {"text": t_})
+        except Exception as ex:  # noqa: BLE001
+            if not isinstance(ex, OverflowError):
+                rt_fail("date-normal-form", f"http_date(parse_date({t_!r})) raised {type(ex).__name__}: {ex}", {"text": t_})
     if contract_bad:
         chk.broken("contract", "calendar (datetime / email.utils)", f"{contract_bad} instants are not rebuilt from their UTC field tuple")
     chk.count("dates", len(dts))
